@@ -30,7 +30,7 @@ PROP = {
                     "'no repeated points' in the TrimCollinear corner claim is read as 'no two consecutive (cyclically) equal vertices'",
                     "the line through two coinciding neighbours is undefined: such vertices are counted and not judged",
                     "Ellipse: vertex i is compared with centre + radii*(cos, sin)(2 pi i / n) within 1 unit"],
-    "floor": _q(100000, 2000000),
+    "floor": _q(150000, 3000000),
     "must_count": _q(["trim_area_checked", "trim_premise_holds_closed", "trim_premise_holds_open", "trim_removed_something_under_premise",
                       "simplify_vertices_judged", "simplify_removed_something", "rdp_removed_vertices_judged",
                       "strip_near_equal_judged", "strip_duplicates_removed_something", "ellipse_points_judged", "calls_GetBounds"],
@@ -42,6 +42,6 @@ PROP = {
                         "open, epsilon in {0, 0.5, 1.5}; everything else is sampled"),
     "jobs": [
         {"mon": "mon_c20", "cfg": "plain", "cases": _q(69905, 1118481), "args": ["--mode", "exh"]},
-        {"mon": "mon_c20", "cfg": "plain", "cases": _q(120000, 3600000), "args": ["--mode", "rnd"], "seed_off": 7},
+        {"mon": "mon_c20", "cfg": "plain", "cases": _q(200000, 4000000), "args": ["--mode", "rnd"], "seed_off": 7},
     ],
 }
